@@ -2351,6 +2351,10 @@ impl Node {
                 state.fee_velocity_control.limit
             );
         }
+        if !state.fee_velocity_control.is_unlimited() {
+            // the fee now counts against the velocity limit - make sure it still does after a restart
+            self.persister.update_node(&self.get_id(), &*state).expect("node persistence failure");
+        }
 
         Ok(())
     }
